@@ -128,7 +128,7 @@ func (g *rgen) lit(t rty) string {
 	case tBool:
 		return []string{"true", "false"}[g.pick(2)]
 	case tStr:
-		return []string{`""`, `"a"`, `"ab"`, `"b"`}[g.pick(4)]
+		return []string{`""`, `"a"`, `"ab"`, `"b"`, `"("`, `")"`}[g.pick(6)]
 	}
 	panic("lit")
 }
